@@ -88,9 +88,17 @@ def check_c14(v: Verdict, t1_summary, n_trees):
         forbid = rng.random() < 0.4
         dv = rng.random() < 0.5
         hist["forbid"] += forbid
-        use_arg = rng.random() < 0.25
+        use_arg = rng.random() < 0.35
         hist["with_subclasses_arg"] += use_arg
-        desc = {"tree": [f"{classes[i].__name__}(parent={classes[parent[i]].__name__ if parent[i] is not None else None}, own={own[i]})" for i in range(n)],
+        # an explicit `subclasses` tuple: all of them in a random order, or (half of the time) a proper subset -- possibly skipping
+        # an intermediate class, so that a listed class has listed descendants but no listed direct child
+        configured = list(range(n))
+        if use_arg and n > 2 and rng.random() < 0.5:
+            configured = [0] + sorted(rng.sample(range(1, n), rng.randint(1, n - 2)))
+            hist["partial_subclasses_arg"] = hist.get("partial_subclasses_arg", 0) + 1
+        partial = len(configured) < n
+        desc = {"subclasses_argument": ([classes[i].__name__ for i in configured[1:]] if use_arg else None),
+                "tree": [f"{classes[i].__name__}(parent={classes[parent[i]].__name__ if parent[i] is not None else None}, own={own[i]})" for i in range(n)],
                 "forbid_extra_keys": forbid, "detailed_validation": dv}
         insts = []
         for i in range(n):
@@ -101,7 +109,7 @@ def check_c14(v: Verdict, t1_summary, n_trees):
             gc.collect()
             kwargs = {}
             if use_arg:
-                subs = classes[1:]
+                subs = [classes[i] for i in configured[1:]]
                 rng.shuffle(subs)
                 kwargs["subclasses"] = tuple(subs)
             if strategy == "tagged":
@@ -112,7 +120,7 @@ def check_c14(v: Verdict, t1_summary, n_trees):
             except Exception as e:
                 accepted = False
                 err = repr(e)
-            if strategy == "auto":
+            if strategy == "auto" and not partial:
                 hist["auto_accepted" if accepted else "auto_refused"] += 1
                 # ---- model: is a disambiguator available at every node / where does each payload land
                 cl_coq = c_list("{| dc_id := %s; dc_fields := %s |}" % (cN(i + 1), c_list(
@@ -122,12 +130,12 @@ def check_c14(v: Verdict, t1_summary, n_trees):
                 isd = "(fun x k => existsb (fun p => N.eqb (fst p) x && N.eqb (snd p) k) [" + "; ".join(f"({x}%N, {k}%N)" for x, k in desc_pairs) + "])"
                 cases.append(("ok", f"forallb (node_ok (fun l => l) (fun l => l) {c_bool(skip)} {cl_coq} {isd}) [{'; '.join(f'{i+1}%N' for i in range(n))}]", accepted,
                               {**desc, "strategy": strategy, "check": "accepted", "observed": accepted}))
-            else:
+            elif strategy == "tagged":
                 hist["tagged"] += 1
             if not accepted:
                 continue
-            for k in range(n):
-                for x in range(n):
+            for k in configured:
+                for x in configured:
                     if not issubclass(classes[x], classes[k]):
                         continue
                     hist["pairs_checked"] += 1
@@ -138,7 +146,7 @@ def check_c14(v: Verdict, t1_summary, n_trees):
                         back = conv.structure(payload, classes[k])
                     except Exception as e:
                         rp["error"] = repr(e)
-                        leaf = not any(parent[j] == k for j in range(n))
+                        leaf = not any(j != k and issubclass(classes[j], classes[k]) for j in configured)
                         if strategy == "tagged" and forbid and leaf and "ForbiddenExtraKeysError" in repr(e) + repr(getattr(e, "exceptions", "")):
                             hist["f16_hits"] += 1
                             v.finding("F16", "leaf class under the tagged-union strategy + forbid_extra_keys rejects the tag its unstructure hook adds", rp)
@@ -148,7 +156,7 @@ def check_c14(v: Verdict, t1_summary, n_trees):
                     if type(back) is not type(inst) or back != inst:
                         rp["payload"], rp["back"] = payload, repr(back)
                         v.violation("base-typed round trip lost the exact subclass or its attributes", rp)
-                    if strategy == "auto":
+                    if strategy == "auto" and not partial:
                         keys = c_list(cN(intern(kk)) for kk in payload)
                         cases.append(("res", f"auto_resolve (fun l => l) (fun l => l) {c_bool(skip)} {cl_coq} {isd} 4 {k+1}%N {keys}", classes.index(type(back)) + 1,
                                       {**desc, "strategy": strategy, "check": "resolve", "structure_as": classes[k].__name__, "payload": payload, "observed": type(back).__name__}))
